@@ -225,8 +225,12 @@ LRParser<SemanticType, TokenType>::parse(Iterable in) {
   for (;;) {
     int s = states.back();
     int a = translator(*ip).index;
-    if ((int)action[s].size() <= a)
-      return ParseResult(ParseResult::REJECT, "not ok");
+    if (a < 0 || (int)action[s].size() <= a) {
+      // a terminal the grammar does not mention: no sentence contains it; in
+      // prefix mode it ends the prefix like the end marker does
+      if (!accept_prefix) return ParseResult(ParseResult::REJECT, "not ok");
+      a = eof.index;
+    }
     switch (action[s][a].t) {
       case Action::SHIFT: {
         int s_prime = action[s][a].state;
